@@ -20,11 +20,12 @@ R.contract("PeerConnection.remove_out_bytes", params={"self": "PeerConnection", 
            ghost_ensures=["self.g_removed == old(self.g_removed) + old(self._write_buffer)[:sent_bytes]"],
            modifies=["self._write_buffer"], props=["C15"])
 R.contract("PeerConnection.work_write_queue", params={"self": "PeerConnection", "_thread": "StoppableThread"},
-           raises=[], ghost_modifies=["self._write_msg_queue.g_taken", "*Message.g_enc"],
+           requires=[("lock-free-at-start", "not self.write_lock.g_held")],
+           raises=[], ghost_modifies=["self._write_msg_queue.g_taken", "*Message.g_enc", "self.g_removed", "self.write_lock.g_held"],
            modifies=["self._write_buffer", "*MessageHeader.length", "*Avp._avps", "*list:Any"], props=["C15", "C14"],
            note="writer thread: raises nothing; each iteration appends exactly the encoding of the dequeued message, or nothing")
 R.loop("PeerConnection.work_write_queue", 0,
-       invariants=[("t", "True")],
+       invariants=[("write-lock-released-between-messages", "not self.write_lock.g_held")],
        step=[("appends-the-encoding-or-nothing",
               "T_out(self) == prev(T_out(self)) or "
               "(len(self._write_msg_queue.g_taken) == prev(len(self._write_msg_queue.g_taken)) + 1 and "
@@ -33,10 +34,10 @@ R.loop("PeerConnection.work_write_queue", 0,
              ("dequeues-at-most-one", "len(self._write_msg_queue.g_taken) <= prev(len(self._write_msg_queue.g_taken)) + 1 and "
                                       "items(self._write_msg_queue.g_taken)[0:prev(len(self._write_msg_queue.g_taken))] == "
                                       "prev(items(self._write_msg_queue.g_taken))"),
-             ("nothing-removed-by-the-writer", "self.g_removed == prev(self.g_removed)")],
+             ("removed-log-only-grows", "is_prefix(prev(self.g_removed), self.g_removed)")],
        local_kinds={"new_msg": "Opt[Message]"},
-       modifies=["self._write_buffer", "self._write_msg_queue.g_taken", "*Message.g_enc", "*MessageHeader.length",
-                 "*Avp._avps", "*list:Any"])
+       modifies=["self._write_buffer", "self.g_removed", "self._write_msg_queue.g_taken", "*Message.g_enc", "self.write_lock.g_held",
+                 "*MessageHeader.length", "*Avp._avps", "*list:Any"])
 
 # ---- the send branch of the I/O loop, extracted mechanically as a slice of Node._handle_connections ------------
 R.model("Socket", fields={"g_sent": "bytes"})
@@ -78,3 +79,15 @@ _slice = R.contract("Node._handle_connections@for:wsock", params={"self": "Node"
            note="one iteration of `for wsock in ready_w` (send branch), under interference of the writer thread: the write "
                 "buffer may grow at its end whenever it is read outside write_lock and when the lock is acquired")
 _slice.interference = [("PeerConnection", "_write_buffer")]
+
+
+# the writer thread runs under the interference of the I/O loop: a prefix of the buffer may be removed (and logged in
+# g_removed) whenever the buffer is read without write_lock and whenever the lock is acquired
+@R.specfn("rely:PeerConnection._write_buffer")
+def _rely_drop_prefix(ex, st, obj, cur, n):
+    from pyvc.smt import seq_concat, seq_extract, I
+    rem = ex.read_field(st, obj, "g_removed")
+    return ex.write_field(st, obj, "g_removed", type(rem)(seq_concat(rem.t, seq_extract(cur.t, I(0), n))))
+
+
+R.contracts["PeerConnection.work_write_queue"].interference = [("PeerConnection", "_write_buffer", "drop-prefix")]
